@@ -182,6 +182,15 @@ pub fn gen_borrow() -> Generated {
                 emit(&mut src, &mut probes, &name, "item-and-second-mutable-iterator", false, vec!["E0499"], &format!("{setup}\n    let mut it = {};\n    let x = it.next();\n    let mut it2 = {};\n    let y = it2.next();\n    sink(x);\n    sink(y);", me.call, me.call));
             }
         }
+        // T1c a call that reorders or inserts (get, get_lru, peek_or_put) is itself a mutation: a
+        // shared reference obtained before it must not be usable after it
+        if me.mutable && !me.ret_mut && !me.iterator && matches!(me.name.as_str(), "get" | "get_lru" | "peek_or_put") {
+            emit(&mut src, &mut probes, &name, "shared-borrow-across-reordering-call", false, vec!["E0502"], &format!("{setup}\n    let r = c.peek(&2u64);\n    let x = {};\n    sink(r);\n    sink(x);", me.call));
+            emit(&mut src, &mut probes, &name, "shared-borrow-across-reordering-call", true, vec![], &format!("{setup}\n    let r = c.peek(&2u64);\n    sink(r);\n    let x = {};\n    sink(x);", me.call));
+            if me.ty == "RawLRU" {
+                emit(&mut src, &mut probes, &name, "iterator-across-reordering-call", false, vec!["E0502"], &format!("{setup}\n    let it = c.iter();\n    let x = {};\n    sink(it);\n    sink(x);", me.call));
+            }
+        }
         // T4 two live mutable references
         if me.ret_mut {
             emit(&mut src, &mut probes, &name, "double-mutable", false, vec!["E0499"], &format!("{setup}\n    let a = {};\n    let b = {};\n    sink(a);\n    sink(b);", me.call, me.call));
@@ -314,6 +323,25 @@ macro_rules! rows { ($k:ident, $v:ident) => {
     row!("ValuesLRUIterMut", $k, $v, ValuesLRUIterMut<'static, $k, $v>);
 } }
 
+type D = DefaultHashBuilder;
+macro_rules! rows_param { ($p:ident) => {
+    row!("RawLRU/S", $p, SS, RawLRU<SS, SS, DefaultEvictCallback, $p>);
+    row!("RawLRU/E", $p, SS, RawLRU<SS, SS, $p, D>);
+    row!("SegmentedCache/S", $p, SS, SegmentedCache<SS, SS, $p, D>);
+    row!("SegmentedCache/S", $p, SS, SegmentedCache<SS, SS, D, $p>);
+    row!("TwoQueueCache/S", $p, SS, TwoQueueCache<SS, SS, $p, D, D>);
+    row!("TwoQueueCache/S", $p, SS, TwoQueueCache<SS, SS, D, $p, D>);
+    row!("TwoQueueCache/S", $p, SS, TwoQueueCache<SS, SS, D, D, $p>);
+    row!("AdaptiveCache/S", $p, SS, AdaptiveCache<SS, SS, $p, D, D, D>);
+    row!("AdaptiveCache/S", $p, SS, AdaptiveCache<SS, SS, D, $p, D, D>);
+    row!("AdaptiveCache/S", $p, SS, AdaptiveCache<SS, SS, D, D, $p, D>);
+    row!("AdaptiveCache/S", $p, SS, AdaptiveCache<SS, SS, D, D, D, $p>);
+    row!("WTinyLFUCache/S", $p, SS, WTinyLFUCache<SS, SS, $p, D, D, D>);
+    row!("WTinyLFUCache/S", $p, SS, WTinyLFUCache<SS, SS, caches::lfu::DefaultKeyHasher<SS>, $p, D, D>);
+    row!("WTinyLFUCache/S", $p, SS, WTinyLFUCache<SS, SS, caches::lfu::DefaultKeyHasher<SS>, D, $p, D>);
+    row!("WTinyLFUCache/S", $p, SS, WTinyLFUCache<SS, SS, caches::lfu::DefaultKeyHasher<SS>, D, D, $p>);
+} }
+
 fn main() {
 "#,
     );
@@ -321,6 +349,9 @@ fn main() {
         for v in MARKER_KINDS {
             let _ = writeln!(s, "    rows!({}, {});", k, v);
         }
+    }
+    for k in MARKER_KINDS {
+        let _ = writeln!(s, "    rows_param!({});", k);
     }
     s.push_str("}\n");
     s
@@ -353,6 +384,25 @@ pub fn judge_marker(ty: &str, k: &str, v: &str, send: bool, sync: bool) -> Optio
                 if let Some(w) = need(is_sync(k) && is_sync(v), "a cache is Sync although its keys or values are not Sync") {
                     return Some(w);
                 }
+            }
+        }
+        // the hasher(s) are called through `&self` (lookups) and move with the cache; the
+        // callback moves with the cache (k = the marker kind of that parameter)
+        "RawLRU/S" | "SegmentedCache/S" | "TwoQueueCache/S" | "AdaptiveCache/S" | "WTinyLFUCache/S" => {
+            if send {
+                if let Some(w) = need(is_send(k), "a cache is Send although one of its hashers is not Send") {
+                    return Some(w);
+                }
+            }
+            if sync {
+                if let Some(w) = need(is_sync(k), "a cache is Sync although one of its hashers (used through &self by every lookup) is not Sync") {
+                    return Some(w);
+                }
+            }
+        }
+        "RawLRU/E" => {
+            if send {
+                return need(is_send(k), "a cache is Send although its eviction callback is not Send");
             }
         }
         "MRUIter" | "LRUIter" => {
@@ -572,8 +622,8 @@ pub fn run_e5(verif_dir: &str) -> E5Result {
                     }
                 }
             }
-            if res.marker_rows != 16 * 15 {
-                res.inconclusive = Some(format!("marker table has {} rows, expected {}", res.marker_rows, 16 * 15));
+            if res.marker_rows != 16 * 15 + 4 * 15 {
+                res.inconclusive = Some(format!("marker table has {} rows, expected {}", res.marker_rows, 16 * 15 + 4 * 15));
             }
         }
     }
